@@ -210,4 +210,33 @@ class Repeat(Flow):
         return faults.c10_run(self, w, snap, ev, dev, ctx)
 
 
-REGISTRY = {'flow': Flow, 'flow_faults': FlowFaults, 'repeat': Repeat}
+class Script(Driver):
+    """A fixed history (spec['script']) followed event by event; deviations
+    of kind spec['faults'] on the job transitions listed in
+    spec['fault_steps'] (default: all)."""
+    def enabled(self, w, state):
+        # the position in the script is the number of events applied so far;
+        # it is recovered from the world's tick (init events included)
+        pos = w.tick - len(self.init_events())
+        script = self.spec['script']
+        if 0 <= pos < len(script):
+            return [list(script[pos])]
+        return []
+
+    def plan_deviations(self, w, snap, ev, res):
+        from . import faults
+        steps = self.spec.get('fault_steps')
+        pos = w.tick - len(self.init_events()) - 1
+        if steps is not None and pos not in steps:
+            return {'devs': [], 'ctx': {}, 'stats': {}}
+        return getattr(faults, self.spec['faults'] + '_plan')(
+            self, w, snap, ev, res)
+
+    def run_deviation(self, w, snap, ev, dev, ctx):
+        from . import faults
+        return getattr(faults, self.spec['faults'] + '_run')(
+            self, w, snap, ev, dev, ctx)
+
+
+REGISTRY = {'flow': Flow, 'flow_faults': FlowFaults, 'repeat': Repeat,
+            'script': Script}
